@@ -5,13 +5,13 @@
    the invariant Export prints every completed event.  Values are small dyadic
    rationals including negatives, zero and ties, so C++ double arithmetic on them
    is exact for + - *.  Weighted choices are written as sequences with repeats.  *)
-EXTENDS Universe, Json
+EXTENDS Universe, Json, IOUtils
 NoTable == [k \in {} |-> 0]
 
 CONSTANTS MaxObj, Wide
 
-VARIABLES store, attr, todo, nextid, objs
-evars == <<store, attr, todo, nextid, objs>>
+VARIABLES store, attr, todo, nextid, objs, done, coin
+evars == <<store, attr, todo, nextid, objs, done, coin>>
 
 ValsOf(kind) ==
   CASE kind = "double" -> <<Num("double", -1, 1), Num("double", 0, 1), Num("double", 1, 2), Num("double", 2, 1), Num("double", 3, 1), Num("double", 2, 1)>>
@@ -27,6 +27,20 @@ BankList == IF Wide
 \* -1 = the bank is not in the event (rare), otherwise the number of objects
 SizeChoices == <<0, 1, 1, 2, 2, 2, 0, 1, 2, -1>>
 
+(* Size plans.  Random sizes alone leave holes in a small sample (a bank that is present and EMPTY, every bank with
+   exactly one object, ...).  With VP_PLAN = k > 0 in the environment the bank sizes are not chosen but read off the
+   k-th pattern (repeated cyclically over the bank list); the attributes stay random.  The harness asks for one event
+   per plan in addition to the free sample, so every run sees every size class of every bank.                       *)
+SizePlans == << <<0>>, <<1>>, <<2>>, <<0, 1, 2, 1, 0, 2>>, <<2, 0, 1>>, <<1, 2, 0, 0>>, <<-1, 1, 2, 0>>, <<1, -1, 0, 2>> >>
+Digit(c) == CASE c = "0" -> 0 [] c = "1" -> 1 [] c = "2" -> 2 [] c = "3" -> 3 [] c = "4" -> 4 [] c = "5" -> 5
+              [] c = "6" -> 6 [] c = "7" -> 7 [] c = "8" -> 8 [] OTHER -> 0
+PlanIdx == IF "VP_PLAN" \in DOMAIN IOEnv THEN Digit(IOEnv.VP_PLAN) ELSE 0
+PlannedSize(bankpos) == LET pl == SizePlans[PlanIdx] IN pl[((bankpos - 1) % Len(pl)) + 1]
+BankPos(a, b) == CHOOSE i \in DOMAIN BankList : BankList[i] = <<a, b>>
+\* <<coin, size>>: the coin makes the repeated entries of SizeChoices distinct successors, so the simulator (uniform over
+\* distinct successor states) honours the weights
+SizesFor(sl) == IF PlanIdx = 0 THEN {<<i, SizeChoices[i]>> : i \in DOMAIN SizeChoices} ELSE {<<0, PlannedSize(BankPos(sl.a, sl.b))>>}
+
 Slot(s, a, b, id, m) == [s |-> s, a |-> a, b |-> b, id |-> id, m |-> m]
 MethIdx(cls) == SelectSeq([i \in 1..Len(Methods) |-> i], LAMBDA i : Methods[i].cls = cls /\ Methods[i].mode # "enumarg")
 AttrSlots(id, cls) == LET ms == MethIdx(cls) IN [i \in 1..Len(ms) |-> Slot("attr", cls, "", id, ms[i])]
@@ -38,19 +52,22 @@ EInit == /\ store = [k \in {} |-> <<>>] /\ attr = [k \in {} |-> 0]
          /\ todo = [i \in 1..Len(BankList) |-> Slot("bank", BankList[i][1], BankList[i][2], 0, 0)]
          /\ nextid = 1
          /\ objs = [cl \in {"A", "B", "T", "M", "I", "Z"} |-> <<>>]
+         /\ done = FALSE /\ coin = 0
 
 FillBank(sl) ==
-  \E i \in DOMAIN SizeChoices :
-    LET n == IF sl.a \in Singletons THEN 1 ELSE IF SizeChoices[i] > MaxObj THEN MaxObj ELSE SizeChoices[i]
+  \E csz \in SizesFor(sl) :
+    LET sz == csz[2]
+        n == IF sl.a \in Singletons THEN 1 ELSE IF sz > MaxObj THEN MaxObj ELSE sz
         cls == CollClass[sl.a] IN
-    IF n < 0
-    THEN /\ todo' = Tail(todo) /\ UNCHANGED <<store, attr, nextid, objs>>
-    ELSE /\ store' = store @@ (StoreKey(sl.a, sl.b) :> Ids(nextid, n))
-         /\ objs' = [objs EXCEPT ![cls] = @ \o Ids(nextid, n)]
-         /\ nextid' = nextid + n
-         \* attributes are filled after all banks exist, so links can point anywhere
-         /\ todo' = Tail(todo) \o ObjSlots(nextid, n, cls)
-         /\ UNCHANGED attr
+    /\ coin' = csz[1]
+    /\ IF n < 0
+       THEN /\ todo' = Tail(todo) /\ UNCHANGED <<store, attr, nextid, objs>>
+       ELSE /\ store' = store @@ (StoreKey(sl.a, sl.b) :> Ids(nextid, n))
+            /\ objs' = [objs EXCEPT ![cls] = @ \o Ids(nextid, n)]
+            /\ nextid' = nextid + n
+            \* attributes are filled after all banks exist, so links can point anywhere
+            /\ todo' = Tail(todo) \o ObjSlots(nextid, n, cls)
+            /\ UNCHANGED attr
 
 Target(kind) == IF kind \in {"R1", "R2"} THEN "T" ELSE kind
 SeqsOver(vals, maxn) == UNION {[1..n -> {vals[i] : i \in DOMAIN vals}] : n \in 0..maxn}
@@ -80,8 +97,14 @@ FillAttr(sl) ==
             /\ attr' = attr @@ (key :> Obj(IF i = 0 THEN 0 ELSE objs[Target(m.kind)][i]))
             /\ todo' = Tail(todo) /\ UNCHANGED <<store, nextid, objs>>
 
-ENext == /\ todo # <<>>
-         /\ LET sl == Head(todo) IN IF sl.s = "bank" THEN FillBank(sl) ELSE FillAttr(sl)
+(* The simulator evaluates invariants on EVERY successor it generates, not only on the one the walk takes: printing
+   at todo = <<>> also printed all the siblings of the last step (and so favoured events that are complete early: banks
+   missing or empty).  The event is printed in a step of its own, which only the walk itself takes.                    *)
+ENext == \/ /\ todo # <<>>
+            /\ LET sl == Head(todo) IN IF sl.s = "bank" THEN FillBank(sl) ELSE (FillAttr(sl) /\ UNCHANGED coin)
+            /\ UNCHANGED done
+         \/ /\ todo = <<>> /\ ~done /\ done' = TRUE
+            /\ UNCHANGED <<store, attr, todo, nextid, objs, coin>>
 
-Export == todo = <<>> => PrintT(<<"EVENT", ToJson([store |-> store, attr |-> attr])>>)
+Export == done => PrintT(<<"EVENT", ToJson([store |-> store, attr |-> attr])>>)
 =============================================================================
